@@ -18,6 +18,9 @@ CHECKS["C06"] = ("fault_enumeration", "exhaustive single-fault injection per gen
 CHECKS["C03"] = ("exploration", "metamorphic PBT: same case under generated sync/async flavour assignments vs the all-sync run; return-shape oracle",
   "Each generated case (optionally with one planned fault) is re-run under generated assignments of 6 iterable flavours and 5 callable flavours; items, result and exception must equal the all-synchronous run; every library callable must return an awaitable / async iterator / async context manager.",
   "baseline is the library's own all-sync run (agreement with the stdlib is C01/C02); 6 assignments per case in quick", "4/C03")
+CHECKS["C04"] = ("fault_enumeration", "exhaustive close-position / single-fault / athrow enumeration per generated case; release invariant on instrumented sources; tee and groupby close histories",
+  "Every generated case is expanded to all numbers of items taken before close, exhaustion, all single fault positions and consumer athrow after every prefix, in a loop with and without asyncgen hooks, with sources whose cleanup suspends; afterwards every async iterator passed in must be closed or exhausted and aclose must not raise; tee/groupby advance-close histories check 'source released iff last child done'.",
+  "released is observed on the doubles before any GC; raise path is judged after the owner closed the handle; bounded inputs", "4/C04")
 REASONS = {}
 props = [json.loads(l)["id"] for l in open(os.path.join(HERE, "properties.jsonl"))]
 checks = []
